@@ -1,6 +1,6 @@
 SPECIFICATION MCSpec
 CONSTANTS
-  IDS = {"a", "b"}
+  IDS = {"a"}
   RANGE = {1, 2}
   K = 2
   ATOMIC = TRUE
